@@ -46,6 +46,8 @@ func main() {
 	replay := flag.String("replay", "", "replay file: re-run the property it names and print its findings")
 	list := flag.Bool("list", false, "list properties and rules")
 	controls := flag.String("controls", "/verif/checker/controls", "positive-control module")
+	anchorsFile := flag.String("anchors", "/verif/checker/anchors.json", "recorded shapes of the repository's functions (rename fallback)")
+	dumpAnchors := flag.String("dump-anchors", "", "write the shapes of all repository functions (all configurations) to this file and exit")
 	flag.Parse()
 	t0 := time.Now()
 
@@ -114,6 +116,19 @@ func main() {
 		}(i)
 	}
 	wg.Wait()
+	if *dumpAnchors != "" {
+		all := []Config{cfgC0, cfgC1, cfgC2, cfgC3}
+		ps := make([]*Program, len(all))
+		for i := range all {
+			ps[i], _ = Load(abs, all[i])
+		}
+		if err := DumpAnchors(ps, *dumpAnchors); err != nil {
+			fmt.Println("ERROR", err)
+			os.Exit(2)
+		}
+		return
+	}
+	loadAnchorShapes(*anchorsFile)
 	exit := 0
 	for _, id := range props {
 		spec := registry[id]
@@ -144,6 +159,13 @@ func main() {
 			runThoroughExtras(spec, progs, cfgs, r, abs)
 			if os.Getenv("FG_NO_SELFTEST") == "" {
 				r.SelfTest = runSelfTest(spec, abs, *verif)
+			}
+		}
+		seenNote := map[string]bool{}
+		for _, n := range anchorNotes {
+			if !seenNote[n] {
+				seenNote[n] = true
+				r.Note("%s", n)
 			}
 		}
 		code := r.Finish(*verif, spec.Explanation, spec.NotDecided, append(append([]string{}, commonAssumptions...), spec.Assumptions...))
